@@ -215,10 +215,16 @@ func (cc *clientConn) RoundTrip(req *http.Request) (_ *http.Response, err error)
 			extractTrailerFromHeader(h, trailer)
 			delete(h, "Trailer")
 
+			// Responses to HEAD and 304 responses have no content; their
+			// Content-Length describes the selected representation.
+			bodyLength := contentLength
+			if req.Method == http.MethodHead || statusCode == http.StatusNotModified {
+				bodyLength = 0
+			}
 			if (contentLength != 0 && req.Method != http.MethodHead) || len(trailer) > 0 {
 				rt.respBody = &bodyReader{
 					st:      st,
-					remain:  contentLength,
+					remain:  bodyLength,
 					trailer: trailer,
 				}
 			} else {
